@@ -154,14 +154,14 @@ struct Acc {
 }
 
 fn class_of(pats: &[&str]) -> String {
-  // the first "interesting" character of the failing input: groups failures for the report
+  // names the characters of the failing input that need escaping at all: groups failures for the report
+  let mut tags: Vec<&str> = vec![];
   for p in pats { for c in p.chars() {
-    if c == '\'' { return "apostrophe".into(); }
-    if c == '%' { return "percent".into(); }
-    if c == '$' { return "dollar".into(); }
+    let t = match c { '\'' => "apostrophe", '%' => "percent", '$' => "dollar", '\\' => "backslash", '"' => "double-quote", ' ' | '\t' | '\n' | '\r' => "whitespace",
+      c if c.is_control() => if (c as u32) < 128 { "ascii-control" } else if (c as u32) < 0x100 { "c1-control" } else { "other-control" }, _ => "" };
+    if !t.is_empty() && !tags.contains(&t) { tags.push(t); }
   } }
-  for p in pats { for c in p.chars() { if c.is_control() { return if (c as u32) < 128 { "ascii-control".into() } else if (c as u32) < 0x10000 { "c1-control".into() } else { "control-above-bmp".into() }; } } }
-  "other".into()
+  if tags.is_empty() { "plain".into() } else { tags.join("+") }
 }
 
 impl Acc {
